@@ -87,6 +87,8 @@ struct CellSpec {
   char kind;          // u: Promise/Future contract   s: SharedPromise/SharedFuture contract
                       // U: Future returned by a coroutine   S: SharedFuture returned by a coroutine
                       // t: Task coroutine (lazy, completes inline)   T: Task coroutine that moves to executor 1 first
+                      // o: MakeContractOn(e2) / O: MakeSharedContractOn(e2): the awaited core stores executor 2 (a coroutine
+                      //    resumed by its completer must adopt it: "continue where the producer is")
                       // k: Schedule(e1, f)   K: Schedule(e1, f).ThenInline(g)   (Tasks headed by a Run core: legal to await
                       //    since /repo 4f7ebfc)   — every Task carries the instance-counted value type Cnt
   std::string res;    // val:N | err | exc
@@ -442,7 +444,18 @@ struct W {
         G->Bad(me + " co_await #" + std::to_string(k) + " (" + op.kind + ") resumed on " + on + " instead of its own executor e" + std::to_string(co.ex_before));
       if (ex != co.ex_before) G->Bad(me + " executor changed by " + op.kind + " to e" + std::to_string(ex));
     }
-    if ((op.kind == "single" || op.kind == "multi") && on[0] == 'p' && ex != co.ex_before && ex != 0) {
+    if ((op.kind == "single" || op.kind == "multi") && on[0] == 'p') {
+      // resumed in place by the completer of cell j: the coroutine continues where the producer is and adopts the executor stored
+      // in that core (the library's rule for a plain co_await / Await; CurrentExecutor, Yield, AwaitSticky then use it)
+      const int j = std::atoi(on.c_str() + 1);
+      const char ck = G->sc->cells[static_cast<std::size_t>(j)].kind;
+      const int want = (ck == 'o' || ck == 'O') ? 2 : 0;
+      if (ex != want && (ex == co.ex_before || want != 0))
+        G->Bad(me + " after co_await #" + std::to_string(k) + " (" + op.kind + ", resumed by " + on + ") the coroutine's executor is e" +
+               std::to_string(ex) + " instead of the awaited core's e" + std::to_string(want));
+    }
+    if ((op.kind == "single" || op.kind == "multi") && on[0] == 'p' && ex != co.ex_before && ex != 0 &&
+        std::string("oO").find(G->sc->cells[static_cast<std::size_t>(std::atoi(on.c_str() + 1))].kind) == std::string::npos) {
       G->Bad(me + " after co_await #" + std::to_string(k) + " (" + op.kind + ", resumed by " + on + ") the coroutine's executor is e" + std::to_string(ex) +
              ": neither its own (e" + std::to_string(co.ex_before) + ") nor the awaited core's (inline)");
     }
@@ -520,7 +533,7 @@ R Body(FrameGuard fg, int cid) {
   locals.reserve(static_cast<std::size_t>(cs.locals));
   for (int i = 0; i < cs.locals; ++i) locals.emplace_back(cid);
   auto E = [&](int e) -> yaclib::IExecutor& { return ExecRef(e); };
-  auto isS = [&](int j) { return G->sc->cells[static_cast<std::size_t>(j)].kind == 's' || G->sc->cells[static_cast<std::size_t>(j)].kind == 'S'; };
+  auto isS = [&](int j) { return std::string("sSO").find(G->sc->cells[static_cast<std::size_t>(j)].kind) != std::string::npos; };
   try {
     for (int k = 0; k < static_cast<int>(cs.ops.size()); ++k) {
       const OpSpec& op = cs.ops[static_cast<std::size_t>(k)];
@@ -682,11 +695,11 @@ yaclib::Task<Cnt> ProdK(int j, bool then) {
 void Fulfil(int j) {
   const CellSpec& cs = G->sc->cells[static_cast<std::size_t>(j)];
   const std::size_t J = static_cast<std::size_t>(j);
-  if (cs.kind == 'u') {
+  if (cs.kind == 'u' || cs.kind == 'o') {
     if (cs.res == "err") std::move(G->prom[J]).Set(yaclib::StopTag{});
     else if (cs.res == "exc") std::move(G->prom[J]).Set(std::make_exception_ptr(std::runtime_error{"x"}));
     else std::move(G->prom[J]).Set(ValOf(cs.res));
-  } else if (cs.kind == 's') {
+  } else if (cs.kind == 's' || cs.kind == 'O') {
     if (cs.res == "err") std::move(G->sprom[J]).Set(yaclib::StopTag{});
     else if (cs.res == "exc") std::move(G->sprom[J]).Set(std::make_exception_ptr(std::runtime_error{"x"}));
     else std::move(G->sprom[J]).Set(ValOf(cs.res));
@@ -736,6 +749,19 @@ void RunScenario(const Scenario& sc) {
       env.sf[j] = std::move(f);
       env.sprom[j] = std::move(p);
       env.core[j] = env.sf[j].GetCore().Get();
+    } else if (cs.kind == 'o') {
+      auto [f, p] = yaclib::MakeContractOn<int>(ExecRef(2));
+      env.fut[j] = std::move(f).On(nullptr);
+      env.prom[j] = std::move(p);
+      env.core[j] = env.fut[j].GetCore().Get();
+    } else if (cs.kind == 'O') {
+      // yaclib::MakeSharedContractOn<int>(e) cannot be instantiated (it returns SharedContract = pair<SharedFuture, …> but builds a
+      // SharedFutureOn): the executor is stored in the core by hand
+      auto [f, p] = yaclib::MakeSharedContract<int>();
+      env.sf[j] = std::move(f);
+      env.sprom[j] = std::move(p);
+      env.core[j] = env.sf[j].GetCore().Get();
+      env.core[j]->_executor = &ExecRef(2);
     } else if (cs.kind == 'U') {
       auto [g, gp] = yaclib::MakeContract<>();
       env.gate[j] = std::move(gp);
@@ -960,6 +986,12 @@ std::vector<Scenario> AllScenarios(bool thorough) {
   add({Cell('u', "val:1", "pre"), Cell('u', "val:5", "pre"), Cell('u', "val:6", "pre")}, {"istop"},
       {Co({Op("mon", {0, 1, 2}, 1, false, true)}, "future", "val:7", false, 2)});
   add({Cell('u', "val:1", "pre"), Cell('u', "val:5"), Cell('u', "val:6", "pre")}, {"istop"}, {Co({Op("mon", {0, 1, 2}, 1)})});
+  // -- the awaited core stores another executor (contract On(e2)): the coroutine resumed by the completer adopts e2
+  add({Cell('o')}, {"run", "run"}, {Co({Op("resched", {}, 1), Op("single", {0}), Op("current", {}), Op("resched", {}, -1), Op("current", {})})});
+  add({Cell('o', "val:3")}, {"run", "run"}, {Co({Op("resched", {}, 1), Op("single", {0}, -1, true), Op("current", {})}, "task")});
+  add({Cell('O', "val:3"), Cell('u', "val:1", "pre")}, {"run", "run"},
+      {Co({Op("resched", {}, 1), Op("multi", {0, 1}), Op("current", {}), Op("sticky", {1})}), Co({Op("single", {0}), Op("current", {})})});
+  add({Cell('o'), Cell('u', "val:5")}, {"run", "run"}, {Co({Op("resched", {}, 1), Op("single", {0}), Op("sticky", {1}), Op("current", {})})});
   // -- plain await after On: the coroutine continues inline on the producer and takes the awaited core's executor
   add({Cell('u'), Cell('u', "val:5")}, {"run"}, {Co({Op("resched", {}, 1), Op("single", {0}), Op("current", {}), Op("sticky", {1}), Op("current", {})})});
   // -- multi forms
